@@ -4,3 +4,8 @@ INC = ['spec/urlspec.h', 'spec/scan.h']
 OBLS.append(Obl('C06.to_lower_ascii.exact', ['C06', 'C16', 'C01', 'C02'], 'Pinf', 'auto', roots=['to_lower_ascii'], specs={'to_lower_ascii': 'to_lower_ascii.spec'},
                 enforce='to_lower_ascii', loop_contracts=True, includes=INC, solver='kissat', timeout=900,
                 note='in-place ASCII lower-casing (SWAR 8 bytes + tail): A-Z -> a-z, all other bytes unchanged, returns "all ASCII"; any length'))
+
+OBLS.append(Obl('C06.punycode.adapt.exact/d20n16', ['C06', 'C16', 'C02'], 'B(2^20)', 'c06/adapt.c', roots=['idna_adapt', 'idna_digit_to_char', 'idna_char_to_digit_value'], unwind=9,
+                defines=['ADAPT_BOUND=1', 'ADAPT_DBITS=20', 'ADAPT_NMAX=16'], solver='kissat', timeout=900, bound='delta < 2^20, numpoints <= 16',
+                note='Punycode bias adaptation == RFC 3492 6.1; digit maps == RFC 3492 5 (the unbounded query -- 31-bit division by a symbolic 31-bit divisor -- did not '
+                     'finish in 30 min with kissat)'))
